@@ -1,24 +1,548 @@
 package sym
 
-// FSWorld: record-structured file system model (see fsmodel.go once built).
-type FSWorld struct {
-	Files []FSFile
-}
+import (
+	"fmt"
+	"go/types"
+	"path/filepath"
+	"sort"
+	"strings"
+	"sync/atomic"
+)
+
+// File-system world (DESIGN.md 3.2). Files are entries (path term, exists, dir flag,
+// content as a list of chunks, mtime). Content chunks are string terms; a chunk is
+// either complete or - only after a crash in the middle of a write - a torn prefix.
+// Every mutating operation is a crash point when a crashable region is armed.
 
 type FSFile struct {
-	Path    *Term
-	Exists  bool
-	IsDir   bool
-	Records []*Term // complete lines (without newline)
-	Tail    *Term   // torn partial record or nil
-	MTime   *Term
+	Path   *Term
+	Exists bool
+	IsDir  bool
+	Data   []*Term // content = concatenation of the chunks
+	Torn   bool    // last chunk is a torn prefix of what was being written
+	MTime  *Term
+}
+
+type FSWorld struct {
+	Files []FSFile
+	Ops   int // mutating operations performed (crash points passed)
 }
 
 func (f *FSWorld) Clone() *FSWorld {
-	nf := &FSWorld{Files: make([]FSFile, len(f.Files))}
+	nf := &FSWorld{Files: make([]FSFile, len(f.Files)), Ops: f.Ops}
 	copy(nf.Files, f.Files)
 	for i := range nf.Files {
-		nf.Files[i].Records = append([]*Term(nil), f.Files[i].Records...)
+		nf.Files[i].Data = append([]*Term(nil), f.Files[i].Data...)
 	}
 	return nf
 }
+
+func (st *State) fs() *FSWorld {
+	if st.World.FS == nil {
+		st.World.FS = &FSWorld{}
+	}
+	return st.World.FS
+}
+
+type fileHandle struct {
+	File     int
+	Append   bool
+	ReadOnly bool
+	Closed   bool
+	Name     *Term
+	RdChunk  int // read position (chunk index) for sequential reads
+}
+
+// ---- errors
+
+func (e *Engine) fsError(st *State, kind, msg string) Value {
+	v := e.newErrorString(st, StrC(msg)).(Iface)
+	st.Ghost["fserr:"+ptrKey(v.V.(Ptr))] = StrC(kind)
+	return v
+}
+
+func fsErrKind(st *State, v Value) string {
+	iv, ok := v.(Iface)
+	if !ok || iv.T == nil {
+		return ""
+	}
+	for {
+		p, ok := iv.V.(Ptr)
+		if !ok {
+			return ""
+		}
+		if k, ok := st.Ghost["fserr:"+ptrKey(p)]; ok {
+			return k.(*Term).S
+		}
+		// unwrap fmt.Errorf("%w") wrappers
+		s, ok := st.Heap[p.Obj].(*Struct)
+		if !ok || len(s.F) < 2 {
+			return ""
+		}
+		inner, ok := s.F[1].(Iface)
+		if !ok || inner.T == nil {
+			return ""
+		}
+		iv = inner
+	}
+}
+
+// ---- path resolution: forks on aliasing between a symbolic path and the entries
+
+// fsResolve runs f(st, idx) for the entry whose path equals `path` (idx = -1: no entry),
+// forking when the equality is not decided. f returns the call's return value.
+func (e *Engine) fsResolve(c *Call, path *Term, f func(st *State, idx int) Value) []*State {
+	fsw := c.St.fs()
+	type alt struct {
+		cond *Term
+		idx  int
+	}
+	var alts []alt
+	none := True
+	for i, fl := range fsw.Files {
+		eq := Eq(fl.Path, path)
+		if eq.Const {
+			if eq.B {
+				alts = append(alts, alt{none, i})
+				none = False
+				break
+			}
+			continue
+		}
+		alts = append(alts, alt{And(none, eq), i})
+		none = And(none, Not(eq))
+	}
+	if !(none.Const && !none.B) {
+		alts = append(alts, alt{none, -1})
+	}
+	if len(alts) == 1 && alts[0].cond.Const {
+		return c.Return(f(c.St, alts[0].idx))
+	}
+	var outs []Outcome
+	for _, a := range alts {
+		a := a
+		outs = append(outs, Outcome{Cond: a.cond, Eff: func(st *State) {
+			v := f(st, a.idx)
+			if c.RetTo != nil {
+				if v == nil {
+					v = Tuple{}
+				}
+				e.setLocal(st.Threads[c.Th.ID].top(), c.RetTo, v)
+			}
+		}})
+	}
+	return c.outcomesNoRet(c.sol2(), outs)
+}
+
+func (st *State) fsAdd(path *Term, isDir bool, mtime *Term) int {
+	fsw := st.fs()
+	fsw.Files = append(fsw.Files, FSFile{Path: path, Exists: true, IsDir: isDir, MTime: mtime})
+	return len(fsw.Files) - 1
+}
+
+// mtime of a modification: a fresh non-decreasing instant
+func (e *Engine) fsTouch(st *State, idx int) {
+	st.fs().Files[idx].MTime = e.now(st)
+}
+
+func (e *Engine) fsContent(st *State, idx int) *Term {
+	return StrConcat(st.fs().Files[idx].Data...)
+}
+
+// ---- crash points
+
+// crashPoint is called before a mutating operation takes effect. When a crashable
+// region is armed it returns an extra state in which the process was killed here.
+func (e *Engine) crashPoint(c *Call, label string) []*State {
+	st := c.St
+	st.fs().Ops++
+	base, armed := st.Ghost["crash:armed"]
+	if !armed {
+		return nil
+	}
+	cr := st.Clone()
+	cr.ID = int(atomic.AddInt32(&e.stateCtr, 1))
+	e.crashNow(cr, cr.Threads[c.Th.ID], int(base.(*Term).U), label)
+	return []*State{cr}
+}
+
+// crashNow kills the process: frames above the crashable region are dropped without
+// running deferred calls, locks vanish, the region reports crashed=true.
+func (e *Engine) crashNow(st *State, th *Thread, depth int, label string) {
+	th.Frames = th.Frames[:depth]
+	th.Panic = nil
+	st.Locks = map[string]LockState{}
+	st.WG = map[string]int{}
+	delete(st.Ghost, "crash:armed")
+	st.Ghost["crash:happened"] = StrC(label)
+	st.Crashed = true
+	st.NoReplay = true
+	st.Events = append(st.Events, Event{Kind: "crash", Args: []Value{StrC(label)}, Thr: th.ID})
+	st.Nondets = append(st.Nondets, NondetRec{Tag: "crash@" + label, Kind: "choice", Conc: st.fs().Ops})
+	// other threads die with the process
+	for _, t := range st.Threads {
+		if t.ID != th.ID {
+			t.Status = TDone
+			t.Frames = nil
+		}
+	}
+}
+
+// withCrash prepends the crashed alternative to the result of continuing.
+func withCrash(c *Call, crashed []*State, res []*State) []*State {
+	if len(crashed) == 0 {
+		return res
+	}
+	if res == nil {
+		return append(crashed, c.St)
+	}
+	return append(crashed, res...)
+}
+
+// ---- values
+
+func (e *Engine) osType(name string) types.Type {
+	p := e.Prog.ImportedPackage("os")
+	if p == nil {
+		panic(unsupported("package os not loaded"))
+	}
+	return p.Type(name).Type()
+}
+
+func (e *Engine) newFileInfo(st *State, idx int) Value {
+	f := st.fs().Files[idx]
+	id := st.Alloc(Opaque{Kind: "fileinfo", Data: f})
+	return Iface{T: types.NewPointer(e.osType("fileStat")), V: Ptr{Obj: id}}
+}
+
+func (e *Engine) newFile(st *State, h fileHandle) Value {
+	id := st.Alloc(Opaque{Kind: "os.File", Data: h})
+	return Ptr{Obj: id}
+}
+
+func handleOf(st *State, v Value) (int, fileHandle, bool) {
+	p, ok := v.(Ptr)
+	if !ok || p.IsNil() {
+		return 0, fileHandle{}, false
+	}
+	o, ok := st.Heap[p.Obj].(Opaque)
+	if !ok || o.Kind != "os.File" {
+		return 0, fileHandle{}, false
+	}
+	return p.Obj, o.Data.(fileHandle), true
+}
+
+func (e *Engine) bytesTerm(st *State, v Value) *Term {
+	switch x := v.(type) {
+	case Bytes:
+		return x.S
+	case *Term:
+		return x
+	case Slice:
+		if x.Len == 0 {
+			return StrC("")
+		}
+		return e.bytesAsString(st, v)
+	}
+	panic(unsupported(fmt.Sprintf("bytesTerm of %T", v)))
+}
+
+// fsWrite appends data to file idx (crash point: the write may be torn at any prefix).
+func (e *Engine) fsAppend(c *Call, idx int, data *Term) []*State {
+	crashed := e.crashPoint(c, "write")
+	for _, cr := range crashed {
+		// torn write: an arbitrary proper prefix of data reached the file
+		pre := FreshVar("torn", SString, 0)
+		cr.Nondets = append(cr.Nondets, NondetRec{Tag: "torn.prefix", Kind: "string", Term: pre})
+		cr.Assume(StrPrefixOf(pre, data))
+		cr.Assume(Not(Eq(pre, data)))
+		f := &cr.fs().Files[idx]
+		f.Data = append(f.Data, pre)
+		f.Torn = true
+	}
+	f := &c.St.fs().Files[idx]
+	f.Data = append(f.Data, data)
+	e.fsTouch(c.St, idx)
+	return crashed
+}
+
+func registerFSWorld(e *Engine) {
+	notExist := func(st *State, op string, path *Term) Value {
+		return e.fsError(st, "notexist", op+": no such file or directory")
+	}
+	e.Intr["os.IsNotExist"] = func(c *Call) []*State {
+		return c.Return(BoolC(fsErrKind(c.St, c.Args[0]) == "notexist"))
+	}
+	e.Intr["os.IsExist"] = func(c *Call) []*State {
+		return c.Return(BoolC(fsErrKind(c.St, c.Args[0]) == "exist"))
+	}
+	e.Intr["os.Stat"] = func(c *Call) []*State {
+		return e.fsResolve(c, c.argTerm(0), func(st *State, idx int) Value {
+			if idx < 0 || !st.fs().Files[idx].Exists {
+				return Tuple{Iface{}, notExist(st, "stat", c.argTerm(0))}
+			}
+			return Tuple{e.newFileInfo(st, idx), Iface{}}
+		})
+	}
+	e.Intr["os.Lstat"] = e.Intr["os.Stat"]
+	fi := func(c *Call) FSFile { return c.St.Heap[c.Args[0].(Ptr).Obj].(Opaque).Data.(FSFile) }
+	e.Intr["(*os.fileStat).ModTime"] = func(c *Call) []*State { return c.Return(timeVal(fi(c).MTime)) }
+	e.Intr["(*os.fileStat).IsDir"] = func(c *Call) []*State { return c.Return(BoolC(fi(c).IsDir)) }
+	e.Intr["(*os.fileStat).Name"] = func(c *Call) []*State { return c.Return(e.baseSym(c.St, fi(c).Path)) }
+	e.Intr["(*os.fileStat).Size"] = func(c *Call) []*State {
+		return c.Return(StrLen(StrConcat(fi(c).Data...), 64))
+	}
+	e.Intr["os.MkdirAll"] = func(c *Call) []*State {
+		return e.fsResolve(c, c.argTerm(0), func(st *State, idx int) Value {
+			if idx >= 0 && st.fs().Files[idx].Exists {
+				if !st.fs().Files[idx].IsDir {
+					return e.fsError(st, "notdir", "mkdir: not a directory")
+				}
+				return Iface{}
+			}
+			st.fs().Ops++
+			if idx >= 0 {
+				f := &st.fs().Files[idx]
+				f.Exists, f.IsDir, f.Data = true, true, nil
+			} else {
+				st.fsAdd(c.argTerm(0), true, e.now(st))
+			}
+			return Iface{}
+		})
+	}
+	// os.WriteFile = open(O_CREATE|O_TRUNC) ; write ; close : crash points before the
+	// truncation and in the middle of the write
+	e.Intr["os.WriteFile"] = func(c *Call) []*State {
+		path := c.argTerm(0)
+		data := e.bytesTerm(c.St, c.Args[1])
+		crashed := e.crashPoint(c, "writefile-open")
+		res := e.fsResolve(c, path, func(st *State, idx int) Value {
+			if idx < 0 {
+				idx = st.fsAdd(path, false, e.now(st))
+			}
+			f := &st.fs().Files[idx]
+			if f.Exists && f.IsDir {
+				return e.fsError(st, "isdir", "write: is a directory")
+			}
+			f.Exists, f.IsDir, f.Data, f.Torn = true, false, nil, false
+			// crash after truncation, before / in the middle of the write
+			if base, armed := st.Ghost["crash:armed"]; armed {
+				cr := st.Clone()
+				cr.ID = int(atomic.AddInt32(&e.stateCtr, 1))
+				pre := FreshVar("torn", SString, 0)
+				cr.Nondets = append(cr.Nondets, NondetRec{Tag: "torn.prefix", Kind: "string", Term: pre})
+				cr.Assume(StrPrefixOf(pre, data))
+				cr.Assume(Not(Eq(pre, data)))
+				cf := &cr.fs().Files[idx]
+				cf.Data, cf.Torn = []*Term{pre}, true
+				e.crashNow(cr, cr.Threads[c.Th.ID], int(base.(*Term).U), "writefile-write")
+				st.Ghost["crash:pending"] = Opaque{Kind: "states", Data: []*State{cr}}
+			}
+			st.fs().Ops++
+			f.Data = []*Term{data}
+			e.fsTouch(st, idx)
+			return Iface{}
+		})
+		// collect crash variants created inside the resolver
+		collect := func(states []*State) []*State {
+			var out []*State
+			for _, s := range states {
+				if p, ok := s.Ghost["crash:pending"]; ok {
+					delete(s.Ghost, "crash:pending")
+					out = append(out, p.(Opaque).Data.([]*State)...)
+				}
+			}
+			return out
+		}
+		if res == nil {
+			extra := collect([]*State{c.St})
+			return withCrash(c, append(crashed, extra...), nil)
+		}
+		extra := collect(res)
+		return append(append(crashed, extra...), res...)
+	}
+	e.Intr["os.ReadFile"] = func(c *Call) []*State {
+		return e.fsResolve(c, c.argTerm(0), func(st *State, idx int) Value {
+			if idx < 0 || !st.fs().Files[idx].Exists {
+				return Tuple{Slice{}, notExist(st, "open", c.argTerm(0))}
+			}
+			return Tuple{Bytes{S: e.fsContent(st, idx)}, Iface{}}
+		})
+	}
+	e.Intr["os.Remove"] = func(c *Call) []*State {
+		crashed := e.crashPoint(c, "remove")
+		res := e.fsResolve(c, c.argTerm(0), func(st *State, idx int) Value {
+			if idx < 0 || !st.fs().Files[idx].Exists {
+				return notExist(st, "remove", c.argTerm(0))
+			}
+			st.fs().Files[idx].Exists = false
+			st.fs().Files[idx].Data = nil
+			return Iface{}
+		})
+		return withCrash(c, crashed, res)
+	}
+	// os.Rename(old, new): atomic; replaces an existing target
+	e.Intr["os.Rename"] = func(c *Call) []*State {
+		oldp, newp := c.argTerm(0), c.argTerm(1)
+		// two-level resolution: old, then new
+		gk := fmt.Sprintf("rename:%d:%d", c.Th.ID, len(c.Th.Frames))
+		if v, ok := c.St.Ghost[gk]; ok {
+			// second entry: old index decided
+			oi := int(v.(*Term).Signed())
+			delete(c.St.Ghost, gk)
+			res := e.fsResolve(c, newp, func(st *State, ni int) Value {
+				fsw := st.fs()
+				src := fsw.Files[oi]
+				if ni >= 0 && ni != oi {
+					fsw.Files[ni].Exists, fsw.Files[ni].IsDir, fsw.Files[ni].Data, fsw.Files[ni].Torn, fsw.Files[ni].MTime = true, src.IsDir, src.Data, src.Torn, src.MTime
+				} else if ni < 0 {
+					fsw.Files = append(fsw.Files, FSFile{Path: newp, Exists: true, IsDir: src.IsDir, Data: src.Data, Torn: src.Torn, MTime: src.MTime})
+				}
+				if ni != oi {
+					fsw.Files[oi].Exists = false
+					fsw.Files[oi].Data = nil
+				}
+				return Iface{}
+			})
+			return res // crash point was taken on the first entry
+		}
+		crashed := e.crashPoint(c, "rename")
+		res := e.fsResolve(c, oldp, func(st *State, oi int) Value {
+			if oi < 0 || !st.fs().Files[oi].Exists {
+				return notExist(st, "rename", oldp)
+			}
+			st.Ghost[gk] = BVC(uint64(oi), 64)
+			st.Threads[c.Th.ID].top().IP-- // re-enter to resolve the target
+			return nil
+		})
+		return withCrash(c, crashed, res)
+	}
+	// os.ReadDir(dir): entries directly under dir, by name (paths must be concrete)
+	e.Intr["os.ReadDir"] = func(c *Call) []*State {
+		dir := c.constStr(0)
+		var names []string
+		isDir := map[string]bool{}
+		found := false
+		for _, f := range c.St.fs().Files {
+			if !f.Exists {
+				continue
+			}
+			if !f.Path.Const {
+				panic(unsupported("os.ReadDir with symbolic file names present"))
+			}
+			if f.Path.S == dir && f.IsDir {
+				found = true
+			}
+			if filepath.Dir(f.Path.S) == dir && f.Path.S != dir {
+				names = append(names, filepath.Base(f.Path.S))
+				isDir[filepath.Base(f.Path.S)] = f.IsDir
+			}
+		}
+		if !found {
+			return c.Return(Tuple{Slice{}, notExist(c.St, "open", c.argTerm(0))})
+		}
+		sort.Strings(names)
+		det := types.NewPointer(e.osType("unixDirent"))
+		vals := make([]Value, len(names))
+		for i, n := range names {
+			id := c.St.Alloc(Opaque{Kind: "dirent", Data: [2]interface{}{n, isDir[n]}})
+			vals[i] = Iface{T: det, V: Ptr{Obj: id}}
+		}
+		if len(vals) == 0 {
+			return c.Return(Tuple{Slice{}, Iface{}})
+		}
+		return c.Return(Tuple{e.newSlice(c.St, vals), Iface{}})
+	}
+	de := func(c *Call) [2]interface{} {
+		return c.St.Heap[c.Args[0].(Ptr).Obj].(Opaque).Data.([2]interface{})
+	}
+	e.Intr["(*os.unixDirent).Name"] = func(c *Call) []*State { return c.Return(StrC(de(c)[0].(string))) }
+	e.Intr["(*os.unixDirent).IsDir"] = func(c *Call) []*State { return c.Return(BoolC(de(c)[1].(bool))) }
+
+	// ---- file handles
+	openFile := func(c *Call, path *Term, create, trunc, appendMode, readOnly, excl bool) []*State {
+		var crashed []*State
+		if create || trunc {
+			crashed = e.crashPoint(c, "open")
+		}
+		res := e.fsResolve(c, path, func(st *State, idx int) Value {
+			exists := idx >= 0 && st.fs().Files[idx].Exists
+			if !exists && !create {
+				return Tuple{Ptr{}, notExist(st, "open", path)}
+			}
+			if exists && excl {
+				return Tuple{Ptr{}, e.fsError(st, "exist", "open: file exists")}
+			}
+			if !exists {
+				if idx < 0 {
+					idx = st.fsAdd(path, false, e.now(st))
+				} else {
+					f := &st.fs().Files[idx]
+					f.Exists, f.IsDir, f.Data, f.Torn = true, false, nil, false
+					e.fsTouch(st, idx)
+				}
+			} else if trunc {
+				f := &st.fs().Files[idx]
+				f.Data, f.Torn = nil, false
+				e.fsTouch(st, idx)
+			}
+			return Tuple{e.newFile(st, fileHandle{File: idx, Append: appendMode, ReadOnly: readOnly, Name: path}), Iface{}}
+		})
+		return withCrash(c, crashed, res)
+	}
+	e.Intr["os.Create"] = func(c *Call) []*State { return openFile(c, c.argTerm(0), true, true, false, false, false) }
+	e.Intr["os.Open"] = func(c *Call) []*State { return openFile(c, c.argTerm(0), false, false, false, true, false) }
+	e.Intr["os.OpenFile"] = func(c *Call) []*State {
+		fl := c.argTerm(1)
+		if !fl.Const {
+			panic(unsupported("os.OpenFile with symbolic flags"))
+		}
+		flag := int(fl.Signed())
+		const (
+			oWRONLY = 0x1
+			oRDWR   = 0x2
+			oAPPEND = 0x400
+			oCREATE = 0x40
+			oEXCL   = 0x80
+			oTRUNC  = 0x200
+		)
+		return openFile(c, c.argTerm(0), flag&oCREATE != 0, flag&oTRUNC != 0, flag&oAPPEND != 0, flag&(oWRONLY|oRDWR) == 0, flag&oEXCL != 0)
+	}
+	fileWrite := func(c *Call, data *Term) []*State {
+		obj, h, ok := handleOf(c.St, c.Args[0])
+		_ = obj
+		if !ok {
+			return c.Panic("nil-deref", "write on nil *os.File")
+		}
+		if h.Closed {
+			return c.Return(Tuple{BVC(0, 64), e.fsError(c.St, "closed", "write: file already closed")})
+		}
+		crashed := e.fsAppend(c, h.File, data)
+		c.Return(Tuple{StrLen(data, 64), Iface{}})
+		return withCrash(c, crashed, nil)
+	}
+	e.Intr["(*os.File).Write"] = func(c *Call) []*State { return fileWrite(c, e.bytesTerm(c.St, c.Args[1])) }
+	e.Intr["(*os.File).WriteString"] = func(c *Call) []*State { return fileWrite(c, c.argTerm(1)) }
+	e.Intr["(*os.File).Sync"] = func(c *Call) []*State { return c.Return(Iface{}) }
+	e.Intr["(*os.File).Name"] = func(c *Call) []*State {
+		_, h, ok := handleOf(c.St, c.Args[0])
+		if !ok {
+			return c.Panic("nil-deref", "Name on nil *os.File")
+		}
+		return c.Return(h.Name)
+	}
+	e.Intr["(*os.File).Close"] = func(c *Call) []*State {
+		obj, h, ok := handleOf(c.St, c.Args[0])
+		if !ok {
+			return c.Return(e.fsError(c.St, "invalid", "invalid argument"))
+		}
+		if h.Closed {
+			return c.Return(e.fsError(c.St, "closed", "close: file already closed"))
+		}
+		h.Closed = true
+		c.St.Heap[obj] = Opaque{Kind: "os.File", Data: h}
+		return c.Return(Iface{})
+	}
+}
+
+var _ = strings.HasPrefix
